@@ -37,7 +37,7 @@ EXTENDS Naturals, Sequences, FiniteSets, TLC, VerifIO, Json, IOUtils
 CONSTANTS Variant, MaxLen, EmitMode
 
 Classes == {"base", "cpp", "py"}
-Files == {"fA", "fB", "fC", "fD", "fE", "fF", "fG"}
+Files == {"fA", "fB", "fC", "fD", "fE", "fF", "fG", "fH"}
 \* (the resonance content of the four files of harness/c20.py)
 \* fE carries the cartesian option and a resonance name the particle table does not know: the read is rejected.
 \* pseudo: the file names one of the pseudo-particles of the special table (KPi00, PiPi00, ...); sensitive: it names
@@ -52,6 +52,8 @@ FileOf(f) == CASE f = "fA" -> [res |-> {"r1", "r2"}, cart |-> "absent", fails |-
                \* fG: the amplitudes of fA under an event type that lists the same particles in another order
                [] f = "fG" -> [res |-> {"r1", "r2"}, cart |-> "absent", fails |-> FALSE, pseudo |-> FALSE, sensitive |-> FALSE, sets |-> {},
                                struct |-> "s1", order |-> "o2"]
+               \* fH: two cascades with the longest names a four-body amplitude can have (splined and K-matrix lineshapes)
+               [] f = "fH" -> [res |-> {"r1", "r2", "r3", "r4"}, cart |-> "absent", fails |-> FALSE, pseudo |-> FALSE, sensitive |-> FALSE, sets |-> {}, struct |-> "sH", order |-> "o1"]
                [] f = "fF" -> [res |-> {"r1", "r9"}, cart |-> "absent", fails |-> FALSE, pseudo |-> FALSE, sensitive |-> TRUE, sets |-> {}, struct |-> "sF", order |-> "o1"]
 
 VARIABLES allP,    \* the shared set
